@@ -1,5 +1,6 @@
 import BlobfinderModel.Properties.C03
 import BlobfinderModel.Model.DType
+import BlobfinderModel.Properties.C08
 /-!
 # C15 — frame dtype does not matter  (partial: integer-range logic)
 Proved: frames are promoted to a float dtype *before* `x − min + 1` is formed (source pinned), the
@@ -49,5 +50,17 @@ theorem wrap_id (d : DType) (hd : d.isInt = true) (v : ℤ) (hv : d.lo ≤ v ∧
 /-- equal log arguments give equal centres: the evaluation only sees the log-scaled data (C03) -/
 theorem same_arg_same_result (x m x' m' : ℚ) (h : x - m = x' - m') : Gen.log_arg x m = Gen.log_arg x' m' := by
   unfold Gen.log_arg; linarith
+
+/-- **the frame dtype changes the number of blocks, not the results.**  `process_frames_fast` sizes its crop buffers from
+the promoted dtype (`get_buf_count` with itemsize 4 for 8/16-bit and float32 frames, 8 for wider ones), so the same peak list
+is processed in another number of blocks; for every per-peak function, every peak list and both item sizes the block loop
+writes the same outputs (C08: the buffer count is irrelevant, and `get_buf_count` is always a valid one). -/
+theorem blocks_of_dtype_irrelevant {α β : Type} (f : α → β) (peaks : Int → α) (n c limit : Int) (hn : 1 ≤ n)
+    (out : Int → β) :
+    runBlocks fastArith f peaks n (Gen.get_buf_count c n 4 limit) out
+      = runBlocks fastArith f peaks n (Gen.get_buf_count c n 8 limit) out := by
+  have h4 := (C08.buf_count_bounds c n 4 limit hn).1
+  have h8 := (C08.buf_count_bounds c n 8 limit hn).1
+  exact C08.buffer_count_irrelevant C08.fast_good f peaks n _ _ (by omega) (by omega) (by omega) out
 
 end C15
